@@ -66,6 +66,8 @@ func verifCanary(label string, cond bool) {}
 //@   assumed
 //@   assigns nothing
 //@   ensures err == nil ==> result0 != nil && fresh(result0) && remoteKeyOf(result0) == remoteKey
+//@   ensures err == nil ==> 0 <= result0.remoteSignatureLength && result0.remoteSignatureLength <= 65536 &&
+//@           0 <= result0.signatureLength && result0.signatureLength <= 65536
 //@   ensures err != nil ==> result0 == nil
 
 //@ func Symmetric
